@@ -14,9 +14,10 @@
                                                              -> any member of Cands is allowed
 
    The graph is an adjacency structure: the walker (C11) follows the per-node parent maps, and
-   the dangling-edge index decides later fix-ups, so "the graph" that must be determined by the
-   certificate set includes them:  parents/children maps = the issuer relation, missing-issuer
-   index = the edges without issuer (empty sets may be present or absent).
+   the dangling-edge indexes decide later fix-ups and which root edges the walk can reach, so
+   "the graph" that must be determined by the certificate set includes them:  parents/children
+   maps = the issuer relation, missing-issuer index (by issuer name) and per-node
+   parentsWithoutIssuer = the edges without issuer (empty sets may be present or absent).
 
    GraphReasons(o) judges an *observation* o of a graph (recorded from the real verifier.Graph
    through the verif accessors, or projected from the B model GraphImpl.tla) and returns the set
@@ -33,6 +34,8 @@
      parents  sequence of [node, other, edges]  node.parentsBySubjectAndKey[other] = edges
      children sequence of [node, other, edges]  node.childrenBySubjectAndKey[other] = edges
      missing  sequence of [name, edges]         missingIssuerNode[name] = edges
+     noissuer sequence of [node, edges]         node.parentsWithoutIssuer = edges (since /repo 59a173b:
+                                                the edges into the node that have no issuer)
      findnode sequence of BOOLEAN, one per node: FindNode(fingerprint) returns that node      *)
 EXTENDS GraphCatalog
 
@@ -56,6 +59,9 @@ NoDup(s) == \A i, j \in 1..Len(s) : s[i] = s[j] => i = j
 RECURSIVE FlatAdj(_)
 FlatAdj(s) == IF s = <<>> THEN <<>>
               ELSE [i \in 1..Len(s[1].edges) |-> <<s[1].node, s[1].other, s[1].edges[i]>>] \o FlatAdj(Tail(s))
+RECURSIVE FlatNoIssuer(_)
+FlatNoIssuer(s) == IF s = <<>> THEN <<>>
+                   ELSE [i \in 1..Len(s[1].edges) |-> <<s[1].node, s[1].edges[i]>>] \o FlatNoIssuer(Tail(s))
 RECURSIVE FlatMissing(_)
 FlatMissing(s) == IF s = <<>> THEN <<>>
                   ELSE [i \in 1..Len(s[1].edges) |-> <<s[1].name, s[1].edges[i]>>] \o FlatMissing(Tail(s))
@@ -74,9 +80,11 @@ GraphReasons(o) ==
       wantP  == {<<e.child, e.issuer, e.id>> : e \in {x \in E : x.issuer # NoNode}}
       wantC  == {<<e.issuer, e.child, e.id>> : e \in {x \in E : x.issuer # NoNode}}
       wantM  == {<<cert(e.id).iss, e.id>> : e \in {x \in known : x.issuer = NoNode}}
+      fn     == FlatNoIssuer(o.noissuer)
+      wantN  == {<<e.child, e.id>> : e \in {x \in E : x.issuer = NoNode}}
   IN
   {w \in {"nodes", "node-index", "edges", "child", "root", "issuer", "issuer-missing",
-          "parents", "children", "missing-index", "find"} :
+          "parents", "children", "missing-index", "parents-without-issuer", "find"} :
      CASE w = "nodes"      -> ~(NoDup(o.nodes) /\ RangeOf(o.nodes) = NodesOf(S))
        [] w = "node-index" -> ~(NoDup(o.nodeidx) /\ RangeOf(o.nodeidx) = NodesOf(S))
        [] w = "edges"      -> ~(NoDup(eids) /\ RangeOf(eids) = ids)
@@ -89,6 +97,8 @@ GraphReasons(o) ==
        [] w = "parents"    -> ~(NoDup(fp) /\ RangeOf(fp) = wantP)
        [] w = "children"   -> ~(NoDup(fc) /\ RangeOf(fc) = wantC)
        [] w = "missing-index" -> ~(NoDup(fm) /\ RangeOf(fm) = wantM)
+       \* an edge is in its child's parentsWithoutIssuer exactly when it has no issuer
+       [] w = "parents-without-issuer" -> ~(NoDup(fn) /\ RangeOf(fn) = wantN)
        [] w = "find"       -> \/ \E e \in E : ~e.found \/ e.isroot # e.root
                               \/ \E i \in 1..Len(o.findnode) : ~o.findnode[i]
                               \/ Len(o.findnode) # Len(o.nodes)}
